@@ -6,7 +6,7 @@ SPEC = {
         "shims": {"session": "internal/protocol/session", "adapter": "internal/protocol/adapter"},
         "runs": [{"args": [], "corpus": ""}],
     },
-    "skip_model_prefix": ["par"],
+    "skip_model_prefix": ["par", "race"],
     "rule": ("seq/strict/fine cases: one history of registry/session operations (AcceptConnection, Handshake packets through "
              "HandlePacket with a gated auth-handler double, KickOldControlConnection, cleanupStaleConnections, ageing, "
              "Heartbeat packets, CloseConnection, RemoveControlConnection, Unregister, tunnel registration, peer break; the sweep, "
@@ -20,7 +20,9 @@ SPEC = {
              "through the real BaseAdapter.handleConnection read loop on a queue-fed transport (a loop whose transport is closed "
              "or broken ends and runs cleanupConnection), exhaustive depth 2/3 and random. Every snapshot also asks the other "
              "spellings (List, ListConnections, GetActiveConnections, GetControlConnectionInterface, "
-             "GetClientIDByConnectionID). par cases: a prefix, then 2-3 blocks run on concurrent goroutines, "
+             "GetClientIDByConnectionID). race cases: a handshake of connection 0 parked inside ClientRegistry.UpdateAuth (gated "
+             "logger at its 'connection authenticated' line) against one removal / eviction / close / re-register / other "
+             "handshake; the outcome must be the model's outcome of one of the two orders (holdsRace). par cases: a prefix, then 2-3 blocks run on concurrent goroutines, "
              "judged by the predicate only. non-trivial = at least one handshake and two non-accept operations; distinct = "
              "distinct case strings"),
     "trusted_base": [
